@@ -7,6 +7,7 @@ import (
 	"github.com/verily-src/fhirpath-go/fhirpath/system"
 	"github.com/verily-src/fhirpath-go/internal/fhir"
 	"github.com/verily-src/fhirpath-go/internal/protofields"
+	"google.golang.org/protobuf/reflect/protoreflect"
 )
 
 var (
@@ -67,9 +68,15 @@ func TypeOf(input any) (TypeSpecifier, error) {
 	if oneOf := protofields.UnwrapOneofField(item, "choice"); oneOf != nil {
 		item = oneOf
 	}
-	name := string(item.ProtoReflect().Descriptor().Name())
+	descriptor := item.ProtoReflect().Descriptor()
+	name := string(descriptor.Name())
 	if protofields.IsCodeField(item) {
 		return TypeSpecifier{FHIR, "code"}, nil
+	}
+	if parent, nested := descriptor.Parent().(protoreflect.MessageDescriptor); nested {
+		// a backbone component declared inside a resource or datatype: qualified with its
+		// owner, so that Patient.communication is not taken for the Communication resource
+		return TypeSpecifier{FHIR, string(parent.Name()) + "." + name}, nil
 	}
 	return TypeSpecifier{FHIR, primitiveToLowercase(name)}, nil
 }
